@@ -27,7 +27,7 @@ Proof.
   intros fuel s g HR Hi Hp Hty H0 Hroot HTM.
   pose proof (proj1 (calls_all TM3 TM3_move TM3_upd fuel) 0 s g None [] [] (mkTI _ _ HR Hi Hp) Hty H0 H0 (conj Hroot eq_refl) HTM) as W. unfold wp in W.
   destruct (resolveMethodCalls fuel 0 s) as [[r s']| |]; auto.
-  destruct W as (g' & m2' & [A B C] & Hrel & _ & Hroots & D & E). exists g'. repeat (split; [assumption|]).
+  destruct W as (g' & m2' & ([A B C] & Hrel & _ & Hroots & D & E) & _ & _). exists g'. repeat (split; [assumption|]).
   split; [apply (reloc_glive _ _ _ 0 Hrel); exact H0|]. split; [apply Hroots; exact Hroot|exact E].
 Qed.
 
@@ -44,7 +44,7 @@ Proof.
   intros fuel s g HR Hi Hp Hty H0 Hroot HTM.
   pose proof (proj1 (nonNamed_all TM3 TM3_move fuel) 0 s g None [] [] (mkTI _ _ HR Hi Hp) H0 (conj Hroot eq_refl) HTM) as W. unfold wp in W.
   destruct (connectNonNamedObjArgs fuel 0 s) as [[r s']| |]; auto.
-  destruct W as (g' & m2' & [A B C] & Hrel & _ & Hroots & Hpf & E). exists g'. repeat (split; [assumption|]).
+  destruct W as (g' & m2' & ([A B C] & Hrel & _ & Hroots & Hpf & E) & _ & _). exists g'. repeat (split; [assumption|]).
   split; [eapply typed_pframe; eauto|]. split; [apply (reloc_glive _ _ _ 0 Hrel); exact H0|]. split; [apply Hroots; exact Hroot|exact E].
 Qed.
 
